@@ -20,7 +20,8 @@ ALPHABETS = {
     # name: (atoms, node specs besides doc/text)
     "groups": (("a", "b", "c", "g"), {"a": {"group": "g"}, "b": {"group": "g"}, "c": {}}),
     "nogroups": (("a", "b"), {"a": {}, "b": {}}),
-    "required": (("a", "r"), {"a": {}, "r": {"attrs": {"x": {}}}}),
+    # r is not generatable: its REQUIRED attribute is declared after one with a default
+    "required": (("a", "r"), {"a": {}, "r": {"attrs": {"d": {"default": 0}, "x": {}}}}),
     "inline": (("t", "text"), {"t": {"inline": True}}),
 }
 
@@ -80,6 +81,16 @@ def units(tier, seed):
                  ("inline", 4, "all", 4)]
         a = extra[seed % len(extra)]
         add(a[0], a[1], a[2], a[3], "/seed")
+    out.append({"kind": "cross", "k": 3 if q else 4, "name": "cross-schema(same names, same expression text)"})
+    if q:
+        # all sequences of <= 4 items, plus one residue class (by seed) of the 5-item sequences
+        for b in range(8):
+            out.append({"kind": "flat", "n": 4, "block": b, "nblocks": 8, "name": f"flat<=4#{b}/8"})
+        for b in range(4):
+            out.append({"kind": "flat", "n": 5, "block": (seed % 8) * 4 + b, "nblocks": 32, "name": f"flat=5#{(seed % 8) * 4 + b}/32"})
+    else:
+        for b in range(64):
+            out.append({"kind": "flat", "n": 5, "block": b, "nblocks": 64, "name": f"flat<=5#{b}/64"})
     L = 4 if q else 5
     nb = 16 if q else 128
     for b in range(nb):
@@ -272,13 +283,44 @@ def _mk(t):
 
 
 TOKENS = ["a", "b", "x", "t", "(", ")", "|", "+", "*", "?", "{", "}", "1", "2", ","]
+# "wide" expressions: sequences of these items (NFAs with two-digit node numbers, many subset states)
+FLAT_ITEMS = ["a", "b", "c?", "a*", "b+", "a{2}", "c{2,}", "(a | b)", "(b c)?", "(a b | c){1,2}"]
 
 
 def run_unit(u):
     res = engine.UnitResult(PROPERTY_ID)
     engine.arm()
     n = 0
-    if u["kind"] == "trees":
+    if u["kind"] == "flat":
+        items = FLAT_ITEMS
+        idx = 0
+        for ln in range(1, u["n"] + 1):
+            for combo in itertools.product(items, repeat=ln):
+                if ln == u["n"] and idx % u["nblocks"] != u["block"]:
+                    idx += 1
+                    continue
+                idx += 1
+                if ln < u["n"] and u["block"] != 0:
+                    continue
+                expr = " ".join(combo)
+                check_expr("groups", expr, res)
+                n += 1
+                if n == 30:
+                    res.sample({"alphabet": "groups", "expr": expr})
+        res.scopes.append({"unit": u["name"], "expressions": n, "completed": True})
+    elif u["kind"] == "cross":
+        atoms = ALPHABETS["groups"][0]
+        for k in range(1, u["k"] + 1):
+            for ast in gen_expr.trees(tuple(atoms), k, tuple(gen_expr.UNARY_BASIC)):
+                expr = cexpr.render(ast)
+                if "g" not in expr.split() and "g" not in expr.replace("(", " ").replace(")", " ").replace("*", " ").replace("+", " ").replace("?", " ").split():
+                    continue
+                for alpha in ("groups", "groups_b", "groups_c", "groups_none", "groups"):
+                    check_expr(alpha, expr, res)
+                    n += 1
+        res.sample({"kind": "cross-schema", "alphabets": ["groups", "groups_b", "groups_c", "groups_none"], "expr": "g+ a"})
+        res.scopes.append({"unit": u["name"], "compilations": n, "completed": True})
+    elif u["kind"] == "trees":
         atoms = ALPHABETS[u["alpha"]][0]
         unary = tuple(gen_expr.UNARY_ALL if u["unary"] == "all" else gen_expr.UNARY_BASIC)
         tr = gen_expr.trees(tuple(atoms), u["k"], unary)
@@ -315,6 +357,11 @@ def run_unit(u):
 
 
 ALPHABETS["malformed"] = (("a", "b", "t"), {"a": {}, "b": {}, "t": {"inline": True}})
+# same node names as "groups", different meaning of the same expression text (group membership, inline-ness,
+# required attributes) - used by the "cross" units, which compile them one after the other in one process
+ALPHABETS["groups_b"] = (("a", "b", "c", "g"), {"a": {}, "b": {"group": "g"}, "c": {"group": "g"}})
+ALPHABETS["groups_c"] = (("a", "b", "c", "g"), {"a": {"group": "g", "attrs": {"x": {}}}, "b": {}, "c": {"group": "g"}})
+ALPHABETS["groups_none"] = (("a", "b", "c", "g"), {"a": {}, "b": {}, "c": {}})
 
 
 def replay(case):
